@@ -39,6 +39,15 @@ CLAIMED = {
               '(b) Lock discipline (E1, -DVF_DISCIPLINE): in every history of 3 (thorough 4) operations on queue, limited_queue, scheduler (manual mode) and publisher, every access to the component object and to heap '
               'blocks allocated under its lock happens with the lock held. Non-SC executions and thread_pool are outside (C11 models the pool).', 'DESIGN.md 3.3, 3.7, 5/C03',
               T_E2.replace('sequential-consistency encoding', 'sequential-consistency encoding plus C++20 happens-before as vector clocks (data-race query)') + ' ; lock discipline: ' + T_E1, engine='E1+E2'),
+    'C04': e1('16 start modes (detach discarded / awaited, start(), start(promise) live / claimed, co_await from a parent, join(), future<T>(coro), returned as future<T>, never started; normal and coroutine mode) x 7 completion modes '
+              '(sync value / throw, suspension on a future resolved from normal mode, from a coroutine discarding or awaiting the suspend point) x {int, void, counted} x nesting depth 0..3: body counters, RAII probes of arguments, '
+              'locals and values, allocation balance, value or exact exception reaches exactly the bound party, bound future pending while suspended, start(claimed) returns false and ~async frees the frame.', 'DESIGN.md 5/C04', T_E1),
+    'C05': e1('Programs of real async<void> coroutines interpreting scripts (spawn-discard, spawn-and-await, pause, resolve promise k and discard / await, await future k, finish) from normal code or from a coroutine-mode context, all '
+              'programs of <=2 (thorough 3) steps plus slices of longer ones and round-robin pause programs up to 4x4, against a lock-step ghost FIFO: nothing made ready runs before the running coroutine suspends or finishes, '
+              'FIFO resumption (symmetric-transfer target may overtake), strict round-robin for pause, never resumed while running, empty queue after every outermost activation.', 'DESIGN.md 5/C05', T_E1),
+    'C06': e1('(1) One operation (<< handle, << suspend_point&&, move-construct, move-assign, pop, clear, destructor, await_suspend in both modes, typed construct+move, create_suspend_point) from directly built representations '
+              '(inline 0..3, heap capacity 6/12/24/48 with any count, decoy handles in unused slots): invariant restored, held + handed out + resumed == 1 per handle, source emptied, exact allocation balance, typed value kept. '
+              '(2) Histories from empty (<=3, thorough 4 operations over two objects, add 1 or 4 handles) in normal and coroutine mode, everything destroyed at the end: every handle resumed exactly once.', 'DESIGN.md 5/C06', T_E1),
     'C07': e2('Contenders of every flavour (try_lock, blocking lock().wait(), coroutine protocol) and release flavour (ownership destructor, release() discarded, release()+clear()) on one mutex, owner releasing while a '
               'request is in flight and free-mutex contention: no two parties in the critical section, each request granted exactly once, a waiter told "not suspended" is never resumed as well, suspended '
               'waiters resumed exactly once, library asserts, lifetime of the awaiter/frame, no thread blocked forever, mutex lockable again.', 'DESIGN.md 3, 5/C07', T_E2),
@@ -51,6 +60,10 @@ CLAIMED = {
     'C10': e1('For every history over {push(v), pop, unblock_push(e), unblock_pop(e)} up to the stated length and limits, and for all pushed values (solver-decided), the real limited_queue<int> agrees with a reference '
               'model on the state of every push/pop future after every step, on size()/empty(), on which waiter an unblock hits and with which exception, and on cancellation + allocation balance at destruction.',
               'DESIGN.md 2, 5/C10', T_E1),
+    'C11': e1('Thread pool under a cooperative thread model (std::thread = table entry run by the harness scheduler, condition_variable::wait parks and unwinds to the scheduler, a notified worker restarts worker() - equivalent because '
+              'it parks holding only the lock; notify_one pick is a skeleton input): pools of 1..3 workers, <=3 submissions of six kinds plus jobs submitting jobs, own-thread stop(), delete pool from a worker, stop then submit; '
+              'per job ran + cancelled == 1, ran only on a worker id, cancelled coroutines see await_canceled_exception, run() futures report a broken promise, nothing forgotten after a drain (lost notification) or after stop(), '
+              'workers joined / self-detached, no join deadlock, allocation balance. Known finding (printed, exit 0): raw-handle jobs meeting a stopped pool are dropped (D9).', 'DESIGN.md 5/C11', T_E1),
     'C12': e1('Manual-mode histories over sleep_until/schedule, cancel(id[,e]), remove(id), get_expired(now) with time points enumerated up to weak order (ties included) and identifiers canonical, against a per-sleep '
               'reference model; the interval() generator with a stop token (request_stop while sleeping / parked / before start; double-lock of the scheduler mutex is a failure); start(awaitable) under a virtual '
               'clock with up to 3 scripted sleepers (never early, on time when idle, in deadline order, cancels hit exactly their target); destruction cancels pending sleeps.', 'DESIGN.md 5/C12', T_E1),
